@@ -129,3 +129,7 @@ def class_attr(key):
     cname, attr = key.split(".")
     import cminx.rstwriter as m
     return getattr(getattr(m, cname), attr)
+
+
+def strip_def(x):
+    return True
